@@ -630,6 +630,53 @@ func runScene(res *core.Result, r *rand.Rand, exhaustiveBits bool) {
 			}
 		}
 	}
+	// A quiet router: node 3 only ever sends announcements and error pings, and the victim never sends it a
+	// signed frame in return. Its announcement, replayed after newer frames - the last one a disconnect, so that a
+	// second handling would be visible - must not be handled again.
+	{
+		const Q = 3
+		byName := map[string]pingKind{}
+		for _, k := range kinds() {
+			byName[k.name] = k
+		}
+		src := ms.Nodes[Q].ID.IP
+		var first []byte
+		for step, kn := range []string{"announce", "error-generic", "error-unknown-code", "disconnect-as-hop-ping"} {
+			time.Sleep(2 * time.Millisecond)
+			held, err := sc.intercept(func() error { return byName[kn].emit(sc, Q) })
+			if err != nil {
+				continue
+			}
+			for _, p := range held {
+				if netip.AddrFrom16([16]byte(p.Data[16:32])) != src {
+					ms.DeliverOn(p, V, p.From)
+					continue
+				}
+				deliver(p.Data, p.From)
+				if first == nil && step == 0 {
+					first = append([]byte(nil), p.Data...)
+				}
+			}
+			settle()
+		}
+		if first != nil {
+			before := sc.snapshot()
+			deliver(first, Q)
+			if len(ms.Panics) > 0 {
+				res.Violate("handler-panic", fmt.Sprintf("replay from a quiet router: %v", ms.Panics[0]), nil)
+				return
+			}
+			if d := diff(before, sc.snapshot()); len(d) > 0 {
+				res.Violate("unauthenticated-ping-changed-state:announce:replay-of-older-frame-from-quiet-router",
+					fmt.Sprintf("an announcement of node %d replayed after newer signed frames of that router (the last one a disconnect that removed its routes) (to which the victim itself never sent a signed frame) changed the victim's state: %s", Q, strings.Join(d[:min(len(d), 4)], "; ")),
+					map[string]any{"case_id": "quiet-router-replay"})
+				return
+			}
+			settle()
+			res.Case("announce|replay-of-older-frame-from-quiet-router|whole-frame", true)
+			res.Count("quiet_router_replays_refused", 1)
+		}
+	}
 	_ = v
 	res.Count("scenes_completed", 1)
 }
